@@ -9,6 +9,9 @@
    Not covered: Framebuffer::as_image (`.unwrap()` of a Result).  Statements only (proofs: Proofs/SrcFbSetPixelBytes.v). *)
 From EG Require Import Base.Prelude Base.Casts Model.Geometry Model.Rawdata Model.Framebuffer.
 From EG Require Import Gen.SrcGeometry Gen.SrcRawData Gen.SrcToBytes Gen.SrcFbSetPixel Gen.SrcFbSetPixelBytes Proofs.SrcFbSetPixel Proofs.SrcFbSetPixelBytes.
+(* the generated definitions that cast to usize (`as usize`, `usize::try_from`) take the width of usize as Casts.UsizeW; the model
+   of this property works with 64-bit usize (exact integers in range): taken at that width *)
+#[local] Existing Instance Casts.usize64_w.
 
 (* in_fb W H p: p is inside the framebuffer; bytes_end t W p: end of the byte range written.  None (panic) exactly when p is
    inside and the range ends outside the data array; never when buf_ok (the `_never_panics` theorems). *)
